@@ -1,11 +1,12 @@
 import Proofs.Lemmas.Interp
+import Proofs.Lemmas.Ecdf
 import Proofs.Audit
 import Mathlib.Analysis.SpecialFunctions.Exp
 
 /-!
 # C18 — BMCI estimates are the importance-weighted statistics of its database
 
-Property theorems only (helper lemmas: `Proofs/Lemmas/{ListAux,Window,Stats,Interp}.lean`).
+Property theorems only (helper lemmas: `Proofs/Lemmas/{ListAux,Window,Stats,Interp,Ecdf}.lean`).
 The model is `Model/Bmci.lean`.  All statements hold for an arbitrary linearly ordered
 field `α` (ℚ is what the driver runs, ℝ with `w = exp (-χ²/2)` is the real reading), for
 databases of any size, with duplicates, ties in the projection and in `x`, constant `x`.
@@ -154,6 +155,24 @@ theorem C18_window_sound (db : Db α) (hv : db.Valid) (q : Query α) (hq : q.res
     _ < pc1e * (p - yproj) ^ 2 := mul_lt_mul_of_pos_left hd hpc
     _ ≤ db.rows[k].chi2 := hs
 
+/-- **C18_excluded_weight_small** — consequence for the weights: when the weight is an
+anti-monotone function `g` of `χ²` (`g = fun c => exp (-c/2)` in the real code), every entry
+left out by the window weighs at most `g (2·x2_max)`. -/
+theorem C18_excluded_weight_small (db : Db α) (hv : db.Valid) (q : Query α) (hq : q.restricted = true)
+    (yproj rad tol pc1e x2max : α)
+    (hsl : q.sl = yproj - rad - tol) (hsu : q.su = yproj + rad + tol)
+    (hrad : 0 ≤ rad) (htol : 0 ≤ tol) (hx2 : 0 ≤ x2max) (hrad2 : pc1e * rad ^ 2 = 2 * x2max)
+    (hpc : 0 < pc1e)
+    (spectral : ∀ r ∈ db.rows, pc1e * (r.proj - yproj) ^ 2 ≤ r.chi2)
+    (g : α → α) (hg : Antitone g) (hwg : ∀ r ∈ db.rows, r.w = g r.chi2) :
+    ∀ k (hk : k < db.rows.length), ¬ ((bounds db q).1 ≤ k ∧ k < (bounds db q).2) →
+      db.rows[k].w ≤ g (2 * x2max) := by
+  intro k hk hout
+  have := (C18_window_sound db hv q hq yproj rad tol pc1e x2max hsl hsu hrad htol hx2 hrad2 hpc
+    spectral k hk hout).1
+  rw [hwg _ (List.getElem_mem hk)]
+  exact hg this.le
+
 /-- **C18_pruned_estimate_bound** — with non-negative weights the mean over the window differs
 from the mean over the whole database by at most the excluded entries' share of the total
 weight times the range of `x`:
@@ -242,6 +261,39 @@ theorem C18_cdf_monotone_ends_one (db : Db α) (hv : db.Valid) (q : Query α)
     simp only [Option.map_some]
     congr 1
     exact div_self hWv.ne'
+
+/-- **C18_cdf_is_weighted_ecdf** — the ordinates are the weighted empirical distribution
+function of the window: at every abscissa that is the last of its group of equal `x`
+(in particular wherever `x` has no ties) `cum[k] = Σ_{x_i ≤ xs[k]} w_i / Σ w_i = cdfAt xs[k]`.
+Together with `C18_perm_invariant` (invariance of `cdfAt`): the cdf as a function of `x`
+does not depend on the order of the database nor on how `argsort` breaks ties. -/
+theorem C18_cdf_is_weighted_ecdf (db : Db α) (hv : db.Valid) (q : Query α)
+    (xs cum : List α) (hcdf : cdf db q = CdfOut.val xs cum) (k : Nat) (a c : α)
+    (hx : xs[k]? = some a) (hc : cum[k]? = some c) (hlast : ∀ b, xs[k + 1]? = some b → a < b) :
+    c = cdfAt db q a := by
+  obtain ⟨v, hv1, hv2, hv3⟩ := xsWindow_spec db hv q
+  rw [cdf_of_xsWindow db q v hv1] at hcdf
+  by_cases hWv : 0 < wsum v
+  · rw [if_pos hWv] at hcdf
+    injection hcdf with hxs hcum
+    subst hxs hcum
+    have hk : k < v.length := by
+      have := (List.getElem?_eq_some_iff.mp hx).1
+      simpa using this
+    have ha : a = v[k].x := by
+      rw [List.getElem?_map, List.getElem?_eq_getElem hk] at hx
+      simpa using hx.symm
+    have hlast' : ∀ h1 : k + 1 < v.length, v[k].x < v[k + 1].x := by
+      intro h1
+      have := hlast v[k + 1].x (by rw [List.getElem?_map, List.getElem?_eq_getElem h1]; rfl)
+      rwa [ha] at this
+    have hcv : c = wsum (v.take (k + 1)) / wsum v := by
+      rw [List.getElem?_map, cumsum, cumsumFrom_getElem? 0 _ k (by simpa using hk), zero_add,
+        ← List.map_take] at hc
+      simpa [wsum] using hc.symm
+    rw [hcv, cdfAt_eq_of_perm db q v hv2 a, ha, filter_le_eq_take v hv3 k hk hlast']
+  · rw [if_neg hWv] at hcdf
+    cases hcdf
 
 /-- **C18_quantiles_monotone_in_range** — under the same hypotheses `predict_quantiles`
 returns, for quantile levels `taus ⊆ [0,1]` given in non-decreasing order, values that are
@@ -367,9 +419,14 @@ example : ex_rows.reverse.Perm ex_rows := List.reverse_perm _
 #guard (match predictQuantiles ex_db ex_q [0, 1/4, 1/2, 9/10, 1] with
   | .val qs => qs == [10, 10, 10, 26, 30] | _ => false)
 #guard (match predict ex_db ⟨true, 4, 9⟩ with | .nan => true | _ => false)
+-- C18_cdf_is_weighted_ecdf: k = 1 is the last index of the group x = 10 (xs[2] = 20 > 10)
+#guard cdfAt ex_db ex_q 10 == 5 / 8 && cdfAt ex_db ex_q 20 == 3 / 4 && cdfAt ex_db ex_q 30 == 1
+-- C18_excluded_weight_small: an anti-monotone weight function compatible with no row being
+-- contradicted is e.g. g c = 4 - c on this state restricted to its chi2 values; Antitone is satisfiable:
+example : Antitone (fun c : ℚ => -c / 2) := fun a b h => by simp only; linarith
 
 end examples
 
 assert_axioms C18_predict_formula_window C18_predict_formula C18_predict_formula_exp
-  C18_perm_invariant C18_window_spec C18_window_sound C18_pruned_estimate_bound C18_xsort_window
-  C18_cdf_monotone_ends_one C18_quantiles_monotone_in_range C18_nan_when_no_weight
+  C18_perm_invariant C18_window_spec C18_window_sound C18_excluded_weight_small
+  C18_pruned_estimate_bound C18_xsort_window C18_cdf_monotone_ends_one C18_cdf_is_weighted_ecdf C18_quantiles_monotone_in_range C18_nan_when_no_weight
